@@ -28,6 +28,11 @@ impl<T> ErrorEnvelope<T> {
         &self.0
     }
 
+    /// The positions of the error (first) and of the calls that led to it.
+    pub fn stacktrace(&self) -> &[Position] {
+        &self.1
+    }
+
     pub fn appen_draining_stacktrace(self, stacktrace: &mut Vec<Position>) -> Self {
         let Self(err, mut old_stacktrace) = self;
         old_stacktrace.append(stacktrace);
